@@ -444,7 +444,8 @@ def _run_py(case):
 # kind 'cmd'
 
 # what the task of a cmd case looks like when the command uses task data (`world`)
-WORLD = {'targets': ['tg a', 'tgb'], 'dependencies': ['d1'], 'changed': ['d1'], 'opt1': 'dflt'}
+# (the parameter value has braces: in mode `both` a value inserted by `%` must not be seen by `.format` again)
+WORLD = {'targets': ['tg a', 'tgb'], 'dependencies': ['d1'], 'changed': ['d1'], 'opt1': 'd{0}f{}lt'}
 ENV_VALUE = {'C17VAR': 'from env', 'C17EMPTY': ''}
 
 
